@@ -379,7 +379,7 @@ def load_patterns(filename):
     # Current occurrence, containing (onset, midi)
     occurrence = []
     with _open(filename, mode="r") as input_file:
-        for line in input_file.readlines():
+        for row, line in enumerate(input_file.readlines(), 1):
             if "pattern" in line:
                 if occurrence != []:
                     pattern.append(occurrence)
@@ -394,7 +394,19 @@ def load_patterns(filename):
                 occurrence = []
                 continue
             string_values = line.split(",")
-            onset_midi = (float(string_values[0]), float(string_values[1]))
+            # Throw a helpful error if we got an unexpected # of columns
+            if len(string_values) != 2:
+                raise ValueError(
+                    "Expected 2 columns, got {} at "
+                    "{}:{:d}:\n\t{}".format(len(string_values), filename, row, line)
+                )
+            try:
+                onset_midi = (float(string_values[0]), float(string_values[1]))
+            except ValueError:
+                raise ValueError(
+                    "Couldn't convert values {} using float "
+                    "found at {}:{:d}:\n\t{}".format(string_values, filename, row, line)
+                )
             occurrence.append(onset_midi)
 
         # Add last occurrence and pattern to pattern_list
